@@ -126,6 +126,17 @@ CORPUS = [
                   "global.parameters": {"V": {"values": [1, 2], "label": "V.%%"}}},
      True, True, "local"),
 ]
+# steps and labels that already look like script files: each instance has a script path of its own, in its
+# workspace and in the one temporary directory of --usetmp alike (no known finding here: these must hold)
+for _which, _ext in (("local", ".sh"), ("slurm", ".slurm.sh"), ("lsf", "lsf.sh"), ("lsf", ".lsf.sh")):
+    _run = {} if _which == "local" else {"nodes": 1, "procs": 1, "walltime": "00:10:00"}
+    _steps = [dict(_step(n, "echo %d" % i), run=dict(_run, cmd="echo %d" % i, restart="echo again"))
+              for i, n in enumerate(["setup", "setup" + _ext, "setup.restart", "post", "post" + _ext.lstrip(".")])]
+    for _tmp in (False, True):
+        CORPUS.append(("script-like-names-%s%s-%s" % (_which, _ext.replace(".", "-"), "tmp" if _tmp else "ws"), {"description": {"name": "s", "description": "d"}, "study": _steps,
+                                             "global.parameters": {"V": {"values": ["v", "v" + _ext], "label": "%%"}}},
+                       False, _tmp, _which))
+    _steps[3]["run"]["cmd"] = "echo $(V)"
 
 
 def launch_monitor(dag2, which, scripts, hash_ws, use_tmp):
